@@ -1157,6 +1157,9 @@ func main() {
 		if want("rev") || want("revs") {
 			g.genRev(emit)
 		}
+		if want("dense") {
+			g.genDense(emit)
+		}
 		if want("conc") {
 			g.genConcurrent(emit)
 		}
